@@ -512,7 +512,16 @@ def run_case(case):
         return outcome(lambda: s.four_neighbors(*_nbargs(f[1])))
     if t == "nbi":
         try:
-            r = A._four_neighbor_indices((int(f[2]), int(f[3])), *(_nbargs(f[1]) + (None,))[:2])
+            H, W = int(f[2]), int(f[3])
+            args = (_nbargs(f[1]) + (None,))[:2]
+            r = A._four_neighbor_indices((H, W), *args)
+            if H >= 0 and W >= 0:
+                # the public entry points are the methods of the two 2-D classes: they must give the same list
+                from cspuz.expr import BoolVar, IntVar
+                rb = A.BoolArray2D([BoolVar(i) for i in range(H * W)], (H, W)).four_neighbor_indices(*[a for a in args if a is not None])
+                ri = A.IntArray2D([IntVar(i, 0, 1) for i in range(H * W)], (H, W)).four_neighbor_indices(*[a for a in args if a is not None])
+                if list(rb) != list(r) or list(ri) != list(r):
+                    return sx(["err", "MethodsDisagree"])
             return sx([[y, x] for (y, x) in r])
         except Exception as e:  # noqa: BLE001
             return sx(["err", core.err_name(e)])
